@@ -10,12 +10,13 @@
    O  A + methods of every class in reverse order
    T  A + keyword arguments of every call in reverse order
    R  A + the first positional argument of a call hoisted into a temporary when it is itself a call
-   DEHGKOCTR  all of them together
+   M  A + an unrelated method added to every class and an unrelated function to every module
+   DEHGKOCTRM  all of them together
 Every check must stay silent (exit 0) on each of them."""
 import ast
 import os
 
-KINDS = ["A", "B", "C", "D", "E", "H", "G", "K", "O", "T", "R", "DEHGKOCTR"]
+KINDS = ["A", "B", "C", "D", "E", "H", "G", "K", "O", "T", "R", "M", "DEHGKOCTRM"]
 
 
 class Renamer(ast.NodeTransformer):
@@ -219,8 +220,22 @@ class HoistArg(ast.NodeTransformer):
         return node
 
 
+class AddMethod(ast.NodeTransformer):
+    """M: an unrelated helper method added to every class and an unrelated function to every module."""
+
+    def visit_ClassDef(self, node):
+        self.generic_visit(node)
+        node.body.append(ast.parse("def describe_q(self):\n    return f'{type(self).__name__} with {len(vars(self))} attributes'\n").body[0])
+        return node
+
+    def visit_Module(self, node):
+        self.generic_visit(node)
+        node.body.append(ast.parse("def _unused_helper_q(values):\n    total = 0\n    for v in values:\n        total += v\n    return total\n").body[0])
+        return node
+
+
 PASSES = {"B": lambda: Renamer(), "D": lambda: DeepRenamer(), "C": lambda: Logger(), "E": lambda: MulSwap(), "H": lambda: IfInvert(),
-          "G": lambda: CmpFlip(), "K": lambda: RetTemp(), "O": lambda: MethodReverse(), "T": lambda: KwReverse(), "R": lambda: HoistArg()}
+          "G": lambda: CmpFlip(), "K": lambda: RetTemp(), "O": lambda: MethodReverse(), "T": lambda: KwReverse(), "R": lambda: HoistArg(), "M": lambda: AddMethod()}
 
 
 def transform(root, kind):
